@@ -1,19 +1,81 @@
 use super::util::*;
-fn spin(n: usize) -> u32 { let mut i = 0; let mut acc = 0u32; while i < n { acc += 1; i += 1; } acc }
-enum Inner { A { x: u32 }, B { y: u32, z: bool, v: Vec<u32> }, C }
-enum Outer { P(Inner), Q, R }
-static STAGE: std::sync::Mutex<Option<Outer>> = std::sync::Mutex::new(None);
-fn plain_ref(o: &Outer) -> usize { match o { Outer::P(Inner::A { .. }) => 1, Outer::P(_) => 2, Outer::Q => 3, Outer::R => 4 } }
-async fn co_staged(o: Outer) -> usize {
-    let o = match STAGE.lock().unwrap().take() { Some(s) => { std::mem::forget(o); s }, None => o };
-    let r = plain_ref(&o); std::mem::forget(o); r
+use std::sync::{Arc, atomic::AtomicBool};
+type Tx = tokio::sync::mpsc::UnboundedSender<hr::VPortReceiveMsg>;
+enum PA { A { r: tokio::sync::oneshot::Sender<u8> }, B { t: Option<Tx>, x: bool, m: Arc<std::sync::Mutex<(u32, u32)>> } }
+enum PB { A { r: tokio::sync::oneshot::Sender<u8> }, B { t: Option<Tx>, x: bool, f: Arc<AtomicBool> } }
+#[repr(u8)]
+enum PC { A { r: tokio::sync::oneshot::Sender<u8> }, B { p: u32, t: Option<Tx>, x: bool, y: bool, z: bool, w: bool } }
+enum PD { A { r: tokio::sync::oneshot::Sender<u8> }, B { m: Arc<std::sync::Mutex<(u32, Option<bool>, Vec<u8>)>>, t: Option<Tx>, n: Arc<std::sync::Mutex<Option<Vec<u8>>>> } }
+
+#[kani::proof]
+#[kani::unwind(4)]
+fn c99_tmp_a() {
+    let (tx, mut rx) = tokio::sync::mpsc::unbounded_channel();
+    let mut ps = PA::B { t: Some(tx), x: false, m: Arc::new(std::sync::Mutex::new((0, 16))) };
+    let ok = match &mut ps { PA::B { t: Some(tx), .. } => tx.send(hr::VPortReceiveMsg::Finished).is_ok(), _ => false };
+    assert!(ok);
+    let item = rx_pop_raw(&mut rx);
+    assert!(matches!(item, RxItem::Finished));
+    std::mem::forget((ps, rx, item));
+}
+
+#[kani::proof]
+#[kani::unwind(4)]
+fn c99_tmp_b() {
+    let (tx, mut rx) = tokio::sync::mpsc::unbounded_channel();
+    let mut ps = PB::B { t: Some(tx), x: false, f: Arc::new(AtomicBool::new(false)) };
+    let ok = match &mut ps { PB::B { t: Some(tx), .. } => tx.send(hr::VPortReceiveMsg::Finished).is_ok(), _ => false };
+    assert!(ok);
+    let item = rx_pop_raw(&mut rx);
+    assert!(matches!(item, RxItem::Finished));
+    std::mem::forget((ps, rx, item));
+}
+
+#[kani::proof]
+#[kani::unwind(4)]
+fn c99_tmp_c() {
+    let (tx, mut rx) = tokio::sync::mpsc::unbounded_channel();
+    let mut ps = PC::B { p: 7, t: Some(tx), x: false, y: false, z: false, w: false };
+    let ok = match &mut ps { PC::B { t: Some(tx), .. } => tx.send(hr::recv_msg_finished()).is_ok(), _ => false };
+    assert!(ok);
+    let item = rx_pop_raw(&mut rx);
+    assert!(matches!(item, RxItem::Finished));
+    std::mem::forget((ps, rx, item));
+}
+
+#[kani::proof]
+#[kani::unwind(4)]
+fn c99_tmp_d() {
+    let (tx, mut rx) = tokio::sync::mpsc::unbounded_channel();
+    let mut ps = PD::B { m: Arc::new(std::sync::Mutex::new((1, None, Vec::new()))), t: Some(tx), n: Arc::new(std::sync::Mutex::new(Some(Vec::new()))) };
+    let ok = match &mut ps { PD::B { t: Some(tx), .. } => tx.send(hr::VPortReceiveMsg::Finished).is_ok(), _ => false };
+    assert!(ok);
+    let item = rx_pop_raw(&mut rx);
+    assert!(matches!(item, RxItem::Finished));
+    std::mem::forget((ps, rx, item));
+}
+
+#[kani::proof]
+#[kani::unwind(4)]
+fn c99_tmp_e() {
+    let (tx, mut rx) = tokio::sync::mpsc::unbounded_channel();
+    let mut ps = PB::B { t: Some(tx), x: false, f: Arc::new(AtomicBool::new(false)) };
+    let v = hr::VPortReceiveMsg::Finished;
+    let ok = match &mut ps { PB::B { t, .. } => { let tx = t.as_ref().unwrap(); tx.send(v).is_ok() }, _ => false };
+    assert!(ok);
+    let item = rx_pop_raw(&mut rx);
+    assert!(matches!(item, RxItem::Finished));
+    std::mem::forget((ps, rx, item));
 }
 #[kani::proof]
-#[kani::unwind(8)]
-fn c99_tmp_a() {
-    let o = Outer::P(Inner::A { x: kani::any() });
-    *STAGE.lock().unwrap() = Some(o);
-    let mut slot = Slot::new(co_staged(Outer::R));
-    let r = match slot.poll() { std::task::Poll::Ready(v) => v, _ => 7 };
-    assert!(spin(r) == 1);
+#[kani::unwind(4)]
+fn c99_tmp_f() {
+    // data frame instead of Finished
+    let (tx, mut rx) = tokio::sync::mpsc::unbounded_channel();
+    let mut ps = PB::B { t: Some(tx), x: false, f: Arc::new(AtomicBool::new(false)) };
+    let ok = match &mut ps { PB::B { t: Some(tx), .. } => tx.send(hr::recv_msg_data(bytes::Bytes::from_static(b"ab"), true, false, 2)).is_ok(), _ => false };
+    assert!(ok);
+    let item = rx_pop_raw(&mut rx);
+    assert!(matches!(item, RxItem::Data { first: true, last: false, credit: 2, .. }));
+    std::mem::forget((ps, rx, item));
 }
